@@ -504,14 +504,23 @@ def run(repo, rep, tier):
     # matter where the Authorization header is put together
     from ..inline import Flat as _Flat6
     wreq6 = _Flat6(wreq)
+    # a module-level helper that wraps the transport call counts as the
+    # transport call
+    senders = {n_ for n_, g_ in wreq.module.functions.items() if any(
+        isinstance(c_, ast.Call) and
+        (dotted(c_.func) or '').endswith('session.post')
+        for c_ in ast.walk(g_.node)) and g_ is not wreq}
+
+    def is_post(c_):
+        d_ = dotted(c_.func) or ''
+        return d_.endswith('session.post') or d_ in senders
     tainted = set()
     for _round in range(3):
       for n in walk_no_nested(wreq6.node):
         if isinstance(n, ast.Assign):
             txt = norm(n.value, 400)
             tgt = n.targets[0]
-            if isinstance(n.value, ast.Call) and \
-                    (dotted(n.value.func) or '').endswith('session.post'):
+            if isinstance(n.value, ast.Call) and is_post(n.value):
                 continue       # the transport itself is the legitimate sink
             if 'conn.creds[1]' in txt or any(t in tainted and
                                              t in [x.id for x in
@@ -527,8 +536,7 @@ def run(repo, rep, tier):
     # transport (otherwise the taint analysis lost track of it)
     post_args = set()
     for c in walk_no_nested(wreq6.node):
-        if isinstance(c, ast.Call) and \
-                (dotted(c.func) or '').endswith('session.post'):
+        if isinstance(c, ast.Call) and is_post(c):
             for a in list(c.args) + [k.value for k in c.keywords]:
                 post_args |= {x.id for x in ast.walk(a)
                               if isinstance(x, ast.Name)}
